@@ -124,22 +124,43 @@ def assignments(atom_list):
             yield asg
 
 
+def _weight(asg):
+    # distance from the all-default parameter shape (empty lists, None options, false flags)
+    return sum(1 for a, v in asg.items() if (v and a[0] != "empty") or (not v and a[0] == "empty"))
+
+
 def counterexample(f, g, mode="equiv", extra_atoms=()):
-    """Return an assignment falsifying `f <=> g` (mode equiv) or `f => g` (mode implies), or None."""
+    """Return (assignment, n_enumerated): a minimal-weight assignment falsifying `f <=> g`
+    (mode equiv) or `f => g` (mode implies), or (None, n)."""
     al = atoms(f)
     atoms(g, al)
     for a in extra_atoms:
         if a not in al:
             al.append(a)
     n = 0
+    best = None
     for asg in assignments(al):
         n += 1
         a, b = evalf(f, asg), evalf(g, asg)
-        if mode == "equiv" and a != b:
-            return asg, n
-        if mode == "implies" and a and not b:
-            return asg, n
-    return None, n
+        bad = (mode == "equiv" and a != b) or (mode == "implies" and a and not b)
+        if bad and (best is None or _weight(asg) < _weight(best)):
+            best = asg
+    return best, n
+
+
+def counterexamples(f, g, mode="equiv", limit=6):
+    """All minimal-weight falsifying assignments (up to `limit`)."""
+    al = atoms(f)
+    atoms(g, al)
+    out = []
+    for asg in assignments(al):
+        a, b = evalf(f, asg), evalf(g, asg)
+        if (mode == "equiv" and a != b) or (mode == "implies" and a and not b):
+            out.append(asg)
+    if not out:
+        return []
+    w = min(_weight(x) for x in out)
+    return [x for x in out if _weight(x) == w][:limit]
 
 
 def show_atom(a):
@@ -171,11 +192,10 @@ def show(f):
 
 
 def show_asg(asg):
-    """Describe an assignment as the concrete parameter shape it denotes."""
+    """Describe an assignment as the concrete parameter shape it denotes (non-default atoms only)."""
     pos = [show_atom(a) for a, v in asg.items() if v and a[0] != "empty"]
     pos += ["!" + show_atom(a) for a, v in asg.items() if not v and a[0] == "empty"]
-    neg = [show_atom(a) for a, v in asg.items() if (not v and a[0] != "empty") or (v and a[0] == "empty")]
-    return "holds: [%s]; rest default/false: [%s]" % ("; ".join(sorted(pos)), "; ".join(sorted(neg)))
+    return "only [%s] set (everything else empty/none/false)" % "; ".join(sorted(pos))
 
 
 # --- tiny parser for reference formulas --------------------------------------
